@@ -270,6 +270,8 @@ def fragment_rule(ck, prog):
                 w = g.walk(ops=[a], at=(b, "T"))
                 names = g.callee_names_in(w)
                 local_idx = any(x.endswith("EvaluationTableFragment::num_rows") for x in names)
+                if not local_idx and any(x.endswith("EvaluationTableFragment::offset") for x in names):
+                    local_idx = True     # a running position started from fragment.offset(): a global position by construction
                 if not local_idx:
                     # a running counter that starts from a constant inside the fragment evaluator (`let mut row = 0; .. row += 1`) is a
                     # fragment-local position as well: it restarts in every fragment
